@@ -29,7 +29,7 @@ RULES = ["shortest_processing_time", "first_come_first_served", "most_work_remai
 
 def gen_small(rng):
     while True:
-        spec = gen_instance(rng, max_jobs=4, max_machines=3, max_ops=4, flexible=False)
+        spec = gen_instance(rng, huge=0.06, huge64=False, max_jobs=4, max_machines=3, max_ops=4, flexible=False)
         if n_ops(spec) <= 9:
             return spec
 
